@@ -266,6 +266,12 @@ func c18GenHist(r *rand.Rand, id int) c18Case {
 		for _, v := range raw {
 			h2.Observe(v)
 		}
+		// a timer asked for under the same name and tags is another metric: the histogram keeps its identity and its observations
+		tm := col.Timer("lat", nil)
+		_ = tm
+		if col.Histogram("lat", nil) != h2 {
+			c.Exp = append(c.Exp, [2]string{hexf(50), hexf(-1)}) // reported as an exported percentile that cannot be right
+		}
 		for _, m := range col.GetAllMetrics() {
 			switch m.Name {
 			case "lat_p50":
